@@ -131,7 +131,7 @@ func waitList(c *vf.Ctx) []waitCfg {
 	for i := 0; i < 4; i++ {
 		l = append(l, waitCfg{Kind: "special:counter-contended", Seed: c.Seed, Idx: i})
 	}
-	n := c.Pick(1500, 40000)
+	n := c.Pick(1500, 25000)
 	for i := 0; i < n; i++ {
 		l = append(l, waitCfg{Kind: "counter", Seed: c.Seed, Idx: i}, waitCfg{Kind: "stack", Seed: c.Seed, Idx: i})
 	}
@@ -399,6 +399,14 @@ func run(c *vf.Ctx) {
 			childDied(c, what, res)
 		}
 	}
+	// ---- the deterministic special / not-held scenarios first, so that their replay files are the ones kept
+	nSpecial := 0
+	for _, w := range waitList(c) {
+		if w.Kind != "counter" && w.Kind != "stack" {
+			nSpecial++
+		}
+	}
+	finish("wait child (special scenarios)", runChild(c, vf.ChildOpts{Name: "waits", Args: []string{"0", strconv.Itoa(nSpecial), "plain"}, Timeout: 4 * time.Minute}))
 	// ---- scripted arrival orders
 	nChunks := c.Pick(16, 48)
 	for k := 0; k < nChunks; k++ {
@@ -406,7 +414,7 @@ func run(c *vf.Ctx) {
 		spawn(func() {
 			finish(fmt.Sprintf("script child %d/%d", k, nChunks), runChild(c, vf.ChildOpts{Name: "scripts", Args: []string{strconv.Itoa(k), strconv.Itoa(nChunks), "plain"}, Timeout: 12 * time.Minute}))
 		})
-		if k%4 == 0 {
+		if k%c.Pick(4, 6) == 0 {
 			spawn(func() {
 				finish(fmt.Sprintf("script child %d/%d (race)", k, nChunks), runChild(c, vf.ChildOpts{Name: "scripts", Args: []string{strconv.Itoa(k), strconv.Itoa(nChunks), "race"}, Race: true, Timeout: 14 * time.Minute}))
 			})
@@ -415,7 +423,7 @@ func run(c *vf.Ctx) {
 	// ---- Counter / Stack waits, not-held probes
 	wl := len(waitList(c))
 	per := c.Pick(400, 4000)
-	for lo := 0; lo < wl; lo += per {
+	for lo := nSpecial; lo < wl; lo += per {
 		lo := lo
 		spawn(func() {
 			finish(fmt.Sprintf("wait child [%d..)", lo), runChild(c, vf.ChildOpts{Name: "waits", Args: []string{strconv.Itoa(lo), strconv.Itoa(lo + per), "plain"}, Timeout: 8 * time.Minute}))
@@ -437,8 +445,8 @@ func run(c *vf.Ctx) {
 			})
 		}
 	}
-	stress(c.Pick(800, 24000), c.Pick(100, 500), false)
-	stress(c.Pick(240, 6000), c.Pick(40, 250), true)
+	stress(c.Pick(800, 16000), c.Pick(100, 500), false)
+	stress(c.Pick(240, 4000), c.Pick(40, 250), true)
 	wg.Wait()
 
 	c.Require("evaluations", c.Pick(15000, 500000))
@@ -447,12 +455,12 @@ func run(c *vf.Ctx) {
 	c.Require("lock_requests_granted", c.Pick(10000, 400000))
 	c.Require("parked_request_observations", c.Pick(10000, 400000))
 	c.Require("string_vs_model_checks", c.Pick(20000, 500000))
-	c.Require("waiter_observed_parked", c.Pick(3000, 80000))
-	c.Require("waiter_observed_returned", c.Pick(3000, 80000))
+	c.Require("waiter_observed_parked", c.Pick(3000, 50000))
+	c.Require("waiter_observed_returned", c.Pick(3000, 50000))
 	c.Require("wait_scenarios:special", 8)
 	c.Require("wait_scenarios:notheld", len(notHeldNames))
-	c.Require("stress_grants_under_contention", c.Pick(20000, 500000))
-	c.Require("stress_runs_race_build", c.Pick(200, 5000))
+	c.Require("stress_grants_under_contention", c.Pick(20000, 300000))
+	c.Require("stress_runs_race_build", c.Pick(200, 3000))
 	c.Assume("a consistent runtime.Stack(all) snapshot in which every goroutine is parked on a sync primitive or channel (twice in a row, timer-free scenario) means no goroutine can ever run again")
 	c.Assume("sync.Cond / sync.Mutex of the Go runtime are correct; Signal wakes the longest waiter")
 }
